@@ -201,6 +201,49 @@ def hint_writers(ctx, rule, crate, tag=""):
             ctx.ob(rule + tag, fn, "writes:hint_dependencies_available", fn == CACHE + "get_or_cache_candidates",
                    where_call(b, i), "hint bits are written only when a package's candidates arrive")
     ctx.floor(rule + tag, "writer of hint bits", n, 1)
+    # the bit vector only grows and bits are only ever set: a hint once recorded is never lost
+    for b in crate.bodies:
+        if not q.calls_on_field(b, "std::cell::RefCell::borrow_mut", CACHE_ADT, "hint_dependencies_available"):
+            continue
+        crs_ = ()
+        cs = q.conds(b, crs_)
+        for i, t in b.calls():
+            f = t.get("f")
+            if not f or not t["args"] or f["name"] not in ("resize", "truncate", "clear", "pop", "set", "fill", "retain", "set_len",
+                                                         "resize_with", "swap_remove", "remove", "drain", "split_off", "shrink_to_fit", "set_elements"):
+                continue
+            lv = q.leaves(b, t["args"][0])
+            if not _reads_hint_bits(lv):
+                continue
+            nm = f["name"]
+            if nm == "shrink_to_fit":
+                continue
+            if nm == "set":
+                v = t["args"][2]
+                vd = b.origin(v)
+                is_true = (v.get("k") == "const" and v.get("v") is True) or (vd["k"] == "const" and vd["c"].get("v") is True)
+                ctx.ob(rule + tag, b.key, "hint-bits-only-set-true", is_true, where_call(b, i), "hint bits are only ever switched on")
+            elif nm in ("resize", "resize_with"):
+                ok = False
+                for c in cs:
+                    if c.kind != "cmp" or c.op not in ("Le", "Lt", "Ge", "Gt"):
+                        continue
+                    la, lb = q.leaves(b, c.a), q.leaves(b, c.b)
+                    a_len = "call:len" in la and _reads_hint_bits(la)
+                    b_len = "call:len" in lb and _reads_hint_bits(lb)
+                    if a_len == b_len:
+                        continue
+                    smaller = (c.op in ("Le", "Lt")) == a_len       # edge on which len is the smaller side
+                    if q.edge_dominates(b, c.bb, c.target(smaller), i):
+                        ok = True
+                ctx.ob(rule + tag, b.key, "hint-bits-grow-only", ok, where_call(b, i),
+                       "the hint bit vector is resized only when it is too short (a shrinking resize drops recorded hints)")
+            else:
+                ctx.ob(rule + tag, b.key, "hint-bits-grow-only", False, where_call(b, i), "%s() on the hint bit vector can drop recorded hints" % nm)
+
+def _reads_hint_bits(lv):
+    return any(x.split(":", 1)[0] in ("field", "lfield") and x.endswith("hint_dependencies_available") for x in lv)
+
 
 USIZE_MAX = 18446744073709551615
 
@@ -233,7 +276,7 @@ def live_blocks(b, local):
 def guards(ctx, crate, tag, rule="no-guard-across-await"):
     cos = [b for b in crate.bodies if b.coroutine]
     ctx.floor(rule + tag, "coroutines with suspension points",
-              sum(1 for b in cos if b.yields()), 12)
+              sum(1 for b in cos if b.yields()), 8)
     n = 0
     for b in cos:
         ys = set(b.yields())
@@ -251,7 +294,7 @@ def guards(ctx, crate, tag, rule="no-guard-across-await"):
                    "RefCell guard dropped before every suspension point" if not crossing else
                    "RefCell guard %s is live across the .await at %s" % (b.local_ty(l)[:60], b.loc(crossing[0])))
     ctx.count("guard_locals", n)
-    ctx.floor(rule + tag, "RefCell guard locals in coroutines", n, 4)
+    ctx.floor(rule + tag, "RefCell guard locals in coroutines", n, 3)
 
 
 
